@@ -255,6 +255,7 @@ func TestC05(t *testing.T) {
 			return s.TS.Servers.SubscriptionServer.DelProject(ctx, &subscriptiontypes.MsgDelProject{Creator: c0.Addr, Name: "gone"})
 		})
 		s.NextEpoch()
+		goneFrom := int64(s.TS.EpochStart()) // the deletion is in force from this epoch on; relays of older epochs in memory are legitimate
 		s.NextEpoch()
 		for rd := 0; rd < rounds; rd++ {
 			s.Run(50)
@@ -279,6 +280,10 @@ func TestC05(t *testing.T) {
 					acc  sigs.Account
 				}{{"signer-project-disabled", disabledDev}, {"signer-project-deleted", goneDev}}
 				for _, x := range extra {
+					if x.name == "signer-project-deleted" && base.Epoch < goneFrom {
+						run.Count("deleted-project relays skipped: base epoch older than the deletion", 1)
+						continue
+					}
 					r := cloneSession(base)
 					s.session++
 					r.SessionId = s.session
